@@ -201,7 +201,11 @@ def _get_regional_targets(zone: Zone):
     """Targets a Regional Zone."""
     z: Zone
     for z in zone.subzones.values():
-        z = _get_community_targets(z)
+        # a region may hold sites directly as well as communities of sites
+        if z.identifier == ZoneType.C.value:
+            z = _get_community_targets(z)
+        else:
+            z = _get_site_targets(z)
     return zone
 
 
